@@ -50,6 +50,12 @@ func envelopeGen(r *rand.Rand, n int, tier string, emit func(Case)) {
 		l := &lgen{r: r, N: 3 + r.Intn(8)}
 		g := l.any(4)
 		c := Case{"kind": "geom", "wa": g.AsText(), "wb": l.any(5).AsText()}
+		switch r.Intn(6) {
+		case 0:
+			c["t"] = l.randSimil().toCase()
+		case 1, 2:
+			c["t"] = l.randDyadic(true).toCase()
+		}
 		emit(c)
 	}
 }
@@ -155,6 +161,24 @@ func envelopeExec(c Case) Event {
 	}
 	g, h := mustWKT(c.str("wa")), mustWKT(c.str("wb"))
 	ev["pts"] = seqInts(g.DumpCoordinates())
+	// an exact similarity image (integer or power-of-two scale, any of the eight axis symmetries): the envelope of the
+	// image is the image of the envelope, so every envelope is brought back to the lattice frame before it is recorded
+	if f, _ := mapOf(c); f != nil {
+		g, h = imageOf(g, f), imageOf(h, f)
+	}
+	inv := invOf(c)
+	envInts := func(e geom.Envelope) []int {
+		mn, mx, ok := e.MinMaxXYs()
+		if !ok {
+			return []int{}
+		}
+		if inv != nil {
+			a, b := inv(mn), inv(mx)
+			mn = geom.XY{X: math.Min(a.X, b.X), Y: math.Min(a.Y, b.Y)}
+			mx = geom.XY{X: math.Max(a.X, b.X), Y: math.Max(a.Y, b.Y)}
+		}
+		return []int{li(mn.X), li(mn.Y), li(mx.X), li(mx.Y)}
+	}
 	e := g.Envelope()
 	ev["env"], ev["isempty"] = envInts(e), e.IsEmpty()
 	vs := [][]int{}
@@ -176,9 +200,19 @@ func envelopeExec(c Case) Event {
 		ev["members"] = members
 	}
 	ev["variants"] = vs
-	if u, err := geom.Union(g, h); err == nil {
+	// (a tiny image at a large offset is below the overlay's documented snapping tolerance: no Union claim there)
+	subTol := false
+	if t := c.list("t"); t != nil && hexFloat(t[0]) < 1 && (hexFloat(t[1]) != 0 || hexFloat(t[2]) != 0) {
+		subTol = true
+	}
+	if u, err := geom.Union(g, h); err == nil && !subTol {
 		ue := u.Envelope()
-		if mn, mx, ok := ue.MinMaxXYs(); !ok || (mn.X == math.Trunc(mn.X) && mn.Y == math.Trunc(mn.Y) && mx.X == math.Trunc(mx.X) && mx.Y == math.Trunc(mx.Y)) {
+		if mn, mx, ok := ue.MinMaxXYs(); !ok || func() bool {
+			if inv != nil {
+				mn, mx = inv(mn), inv(mx)
+			}
+			return mn.X == math.Trunc(mn.X) && mn.Y == math.Trunc(mn.Y) && mx.X == math.Trunc(mx.X) && mx.Y == math.Trunc(mx.Y)
+		}() {
 			ev["unionok"] = true
 			ev["unionenv"] = envInts(ue)
 			ev["otherenv"] = envInts(h.Envelope())
